@@ -6,8 +6,8 @@
    its parenthesised arguments), nullability, a primary-key flag and a server default (a Python
    string or a text() expression, as a list of code points); named unique constraints; named indexes
    (unique or not) over plain columns; named foreign keys (single- or multi-column, possibly
-   self-referential, without ON UPDATE / ON DELETE / DEFERRABLE options).  Names are interned as N.
-   Outside: CHECK constraints, comments, unnamed constraints, foreign-key options, expression
+   self-referential, with ON UPDATE / ON DELETE / DEFERRABLE / INITIALLY options in any casing).  Names are interned as N.
+   Outside: CHECK constraints, comments, unnamed constraints, expression
    indexes, schemas other than the default one, computed / identity columns. *)
 From AV Require Export Base.ListSet.
 
@@ -35,8 +35,12 @@ Definition k_cols (k:cons) : list N := match k with Uq _ c => c | Ix _ c _ => c 
 Definition is_ix (k:cons) : bool := match k with Ix _ _ _ => true | Uq _ _ => false end.
 Definition is_uq (k:cons) : bool := negb (is_ix k).
 
-(* ForeignKeyConstraint(cols, [rtable.rcol ...], name=...) *)
-Record fk := mkFk { f_name : N; f_cols : list N; f_rtable : N; f_rcols : list N }.
+(* ForeignKeyConstraint(cols, [rtable.rcol ...], name=..., onupdate=, ondelete=, deferrable=, initially=); the option
+   strings are kept as written in the model (any casing), as lists of code points *)
+Record fkopts := mkFkOpts { o_onupdate : option (list N); o_ondelete : option (list N); o_deferrable : option bool;
+                            o_initially : option (list N) }.
+Definition no_opts : fkopts := mkFkOpts None None None None.
+Record fk := mkFk { f_name : N; f_cols : list N; f_rtable : N; f_rcols : list N; f_opts : fkopts }.
 
 Record table := mkTable { t_name : N; t_cols : list col; t_cons : list cons; t_fks : list fk }.
 Definition schema := list table.
@@ -53,9 +57,12 @@ Definition dflt_eqb (a b:dflt) : bool :=
 Definition col_eqb (a b:col) : bool :=
   N.eqb (c_name a) (c_name b) && ty_eqb (c_ty a) (c_ty b) && Bool.eqb (c_null a) (c_null b) && Bool.eqb (c_pk a) (c_pk b)
   && opt_eqb dflt_eqb (c_default a) (c_default b).
+Definition fkopts_eqb (a b:fkopts) : bool :=
+  opt_eqb (list_eqb N.eqb) (o_onupdate a) (o_onupdate b) && opt_eqb (list_eqb N.eqb) (o_ondelete a) (o_ondelete b)
+  && opt_eqb Bool.eqb (o_deferrable a) (o_deferrable b) && opt_eqb (list_eqb N.eqb) (o_initially a) (o_initially b).
 Definition fk_eqb (a b:fk) : bool :=
   N.eqb (f_name a) (f_name b) && list_eqb N.eqb (f_cols a) (f_cols b) && N.eqb (f_rtable a) (f_rtable b)
-  && list_eqb N.eqb (f_rcols a) (f_rcols b).
+  && list_eqb N.eqb (f_rcols a) (f_rcols b) && fkopts_eqb (f_opts a) (f_opts b).
 Definition cons_eqb (a b:cons) : bool :=
   match a, b with
   | Uq n c, Uq n' c' => N.eqb n n' && list_eqb N.eqb c c'
@@ -147,6 +154,13 @@ Fixpoint dbl_quotes (s:list N) : list N :=
   match s with [] => [] | x :: r => if N.eqb x ch_quote then x :: x :: dbl_quotes r else x :: dbl_quotes r end.
 Definition is_digit_or_dot (x:N) : bool := (N.leb 48 x && N.leb x 57) || N.eqb x 46.
 
+(* str.lower / str.upper on ASCII letters *)
+Definition lower_char (x:N) : N := if N.leb 65 x && N.leb x 90 then x + 32 else x.
+Definition upper_char (x:N) : N := if N.leb 97 x && N.leb x 122 then x - 32 else x.
+Definition lower (s:list N) : list N := map lower_char s.
+Definition upper (s:list N) : list N := map upper_char s.
+Definition s_no_action : list N := [110;111;32;97;99;116;105;111;110].     (* no action *)
+
 (* SQLiteImpl._guess_if_default_is_unparenthesized_sql_expr *)
 Definition guess_if_default_is_unparenthesized_sql_expr (expr:list N) : bool :=
   match expr with
@@ -174,7 +188,14 @@ Definition autogen_column_reflect (dflt_text:list N) : list N :=
   if guess_if_default_is_unparenthesized_sql_expr dflt_text then ch_lpar :: dflt_text ++ [ch_rpar] else dflt_text.
 Definition reflect_default (d:dflt) : dflt := DExpr (autogen_column_reflect (sqlite_stored_default d)).
 Definition reflect_col (c:col) : col := mkCol (c_name c) (c_ty c) (c_null c) (c_pk c) (option_map reflect_default (c_default c)).
-Definition reflect_table (t:table) : table := mkTable (t_name t) (map reflect_col (t_cols t)) (t_cons t) (t_fks t).
+(* foreign key options: SQLAlchemy's SQLite dialect parses them out of the stored CREATE TABLE text case-insensitively and
+   reports them upper-cased; ON DELETE / ON UPDATE NO ACTION is reported as absent; DEFERRABLE / NOT DEFERRABLE as True / False *)
+Definition reflect_action (a:option (list N)) : option (list N) :=
+  match a with Some s => if list_eqb N.eqb (lower s) s_no_action then None else Some (upper s) | None => None end.
+Definition reflect_fkopts (o:fkopts) : fkopts :=
+  mkFkOpts (reflect_action (o_onupdate o)) (reflect_action (o_ondelete o)) (o_deferrable o) (option_map upper (o_initially o)).
+Definition reflect_fk (f:fk) : fk := mkFk (f_name f) (f_cols f) (f_rtable f) (f_rcols f) (reflect_fkopts (f_opts f)).
+Definition reflect_table (t:table) : table := mkTable (t_name t) (map reflect_col (t_cols t)) (t_cons t) (map reflect_fk (t_fks t)).
 Definition reflect_sqlite (S:schema) : schema := map reflect_table S.
 
 (* ---------------------------------------------------------------- well-formedness (boolean) *)
@@ -184,7 +205,8 @@ Definition wf_cons (colnames:list N) (k:cons) : bool :=
 Definition wf_col (c:col) : bool := implb (c_pk c) (negb (c_null c)).
 Definition wf_fk (colnames:list N) (f:fk) : bool :=
   match f_cols f with [] => false | _ => true end && nodupb (f_cols f) && all_in (f_cols f) colnames
-  && Nat.eqb (length (f_cols f)) (length (f_rcols f)).
+  && Nat.eqb (length (f_cols f)) (length (f_rcols f))
+  && match o_initially (f_opts f), o_deferrable (f_opts f) with Some _, None => false | _, _ => true end.   (* INITIALLY needs [NOT] DEFERRABLE *)
 Definition wf_table (t:table) : bool :=
   nodupb (keys c_name (t_cols t)) && nodupb (keys k_name (t_cons t)) && nodupb (keys f_name (t_fks t))
   && forallb wf_col (t_cols t) && forallb (wf_cons (keys c_name (t_cols t))) (t_cons t)
